@@ -42,6 +42,18 @@ M = [
     ("c14_eigvecs_transposed", "phonopy/phonon/qpoints.py", "eigenvectors[i] = eigvecs", "eigenvectors[i] = eigvecs.T", ["C14"]),
     ("c14_band_connection_gv_unordered", "phonopy/phonon/band_structure.py", "gv_on_path.append(gv[i][band_order])", "gv_on_path.append(gv[i])", []),
     ("c14_mesh_yaml_wrong_weight", "phonopy/phonon/mesh.py", 'lines.append("  weight: %-5d" % self._weights[i])', 'lines.append("  weight: %-5d" % self._weights[0])', ["C14"]),
+    ("c19_sqrt2_dropped", "phonopy/phonon/random_displacements.py", "np.sqrt(2)", "1.0", ["C19"]),
+    ("c19_half_dropped", "phonopy/phonon/random_displacements.py", "(0.5 + n)", "(n)", ["C19"]),
+    ("c19_msd_mass", "phonopy/phonon/thermal_displacement.py", "c[i] = np.outer(v, v.conj()) / m", "c[i] = np.outer(v, v) / m", ["C19"]),
+    ("c20_pressure_sign", "phonopy/qha/core.py", "self._electronic_energies += self._volumes * pressure / EVAngstromToGPa", "self._electronic_energies -= self._volumes * pressure / EVAngstromToGPa", ["C20"]),
+    ("c20_el_index", "phonopy/qha/core.py", "el_energy = self._electronic_energies[i]", "el_energy = self._electronic_energies[0]", ["C20"]),
+    ("c20_bm_coefficient", "phonopy/qha/eos.py", "9.0 / 16", "9.0 / 8", ["C20"]),
+    ("c20_expansion_dt", "phonopy/qha/core.py", "dt = self._temperatures[i + 1] - self._temperatures[i - 1]", "dt = self._temperatures[i + 1] - self._temperatures[i]", ["C20"]),
+    ("c16_forces_precision", "phonopy/interface/phonopy_yaml.py", "__NOPE__", "__NOPE__", []),
+    ("c17_bohr_dropped", "phonopy/interface/calculator.py", 'units["distance_to_A"] = Bohr\n        units["force_to_eVperA"] = Rydberg / Bohr', 'units["distance_to_A"] = 1.0\n        units["force_to_eVperA"] = Rydberg / Bohr', ["C17"]),
+    ("c17_vasp_sort_unstable", "phonopy/interface/vasp.py", "return sorted(range(len(keys)), key=keys.__getitem__)", "return sorted(range(len(keys)), key=lambda i: (keys[i], -i))", ["C17"]),
+    ("c16_magmom_dropped", "phonopy/interface/phonopy_yaml.py", "__NOPE2__", "__NOPE2__", []),
+    ("c15_gonze_cache_kept", "phonopy/harmonic/dynamical_matrix.py", "        self._Gonze_force_constants = None\n        self._with_full_terms = with_full_terms", "        self._with_full_terms = with_full_terms", []),
     ("c13_python_int64_permutations", "phonopy/harmonic/force_constants.py", '    return np.array(rot_map_syms, dtype="intc", order="C")', '    return np.array(rot_map_syms, dtype="int64", order="C")', []),
 ]
 
